@@ -62,7 +62,7 @@ def decodeTemplate (mode : String) (h : String) : Option (List Nat) :=
 def encodeOut (mode : String) (cs : List Nat) : List Nat := if mode == "t" then utf8Encode cs else cs
 
 def csplit (mode : String) (t : List Nat) : String :=
-  match parseTemplate t with
+  match parseTemplate (mode == "t") t with
   | .panic => "panic"
   | .err k i => s!"err {kindStr k} {i}"
   | .ok parts =>
@@ -173,7 +173,7 @@ def renderParts (mode : String) (v : Views) : List (Nat Ã— Part) â†’ List Nat â†
     | .panic => "panic"
 
 def crender (mode : String) (t : List Nat) (v : Views) : String :=
-  match parseTemplate t with
+  match parseTemplate (mode == "t") t with
   | .panic => "panic"
   | .err k i => s!"err {kindStr k} {i}"
   | .ok parts =>
